@@ -23,6 +23,7 @@ RULE = (
     "positive corner Jacobians, no geometrically coincident distinct vertices, one face-connected component, outer arcs on "
     "the intended circle, documented chops sufficient, chained shapes share exactly the interface vertices. "
     "non-trivial = every case (each is a distinct class/frame/size or chain)"
+    " Shell builders with asymmetric shared points (expected vertex count); BoxPair0-7 (boxes given by any diagonal, off the origin)."
 )
 ASSUMPTIONS = [
     "blockMesh's hex convention for right-handedness (mc/blockmesh_ref.py)",
